@@ -179,9 +179,12 @@ def _ravel_by_evaluation(ctx, ck, ravel) -> bool:
             for l in range(-4, 4):
                 wants = [expected(lf, f, l) for lf in tree]
                 in_range = all(-lf.ndim <= f < lf.ndim and -lf.ndim <= l < lf.ndim for lf in tree)
-                if not in_range:
-                    continue  # axes outside the rank of a leaf: out of the clauses decided here
-                legal = all(w is not None for w in wants)
+                # an axis beyond the rank of a leaf: only the clause "the first axis comes after the last one" is decided
+                # there (a negative axis counts from the end, it does not wrap around)
+                crossed = any((f + lf.ndim if f < 0 else f) > (l + lf.ndim if l < 0 else l) for lf in tree)
+                if not in_range and not crossed:
+                    continue
+                legal = all(w is not None for w in wants) and not crossed
                 n += 1
                 it = Interp(world, table, budget=50_000)
                 it.constructible = {ident.qual}
